@@ -43,17 +43,7 @@ class C07(PipelineProp):
             # Primary mode with two further haplotypes that both hold a chromosome of the same name and
             # an unplaced scaffold: the merged all_haplotigs FILE lists the name twice, apart -- read back,
             # the two must not have become one scaffold (contigs side by side that never were)
-            scs, ptx = [], []
-            for h, hap in enumerate(["HAP1", "HAP2", "HAP3"]):
-                for k in (1, 2):
-                    nm = f"{hap}_SCAFFOLD_{k}"
-                    n1, n2 = rng.randint(300, 900), rng.randint(300, 900)
-                    gl = rng.choice([7, 57, 100, 150, 333])   # every scaffold its own gap length (and type)
-                    scs.append({"name": nm, "rows": [["F", nm, 1, n1, 1, []], ["G", gl, rng.choice(["scaffold", "contig"])], ["F", nm, n1 + gl + 1, n1 + gl + n2, 1, []]]})
-                    tags = (["Painted", "Primary"] if h == 0 else ["Painted", hap.capitalize(), "X"]) if k == 1 else ([] if h == 0 else [hap.capitalize()])
-                    ptx.append({"name": f"Scaffold_{len(ptx) + 1}", "rows": [["F", nm, 1, n1 + gl + n2, rng.choice([1, -1]), tags]]})
-            return {"gen": "primary-3hap", "input": {"scaffolds": scs}, "pretext": {"bpt": "1.000000", "scaffolds": ptx},
-                    "prefix": "SUPER_", "pv": True, "out_name": rng.choice(["xx.1.tpf", "xx.1.agp"])}
+            return {**P.gen_primary_3hap(rng), "pv": True}
         if rng.random() < 0.15:
             # sparse map: single contigs out of the middle of scaffolds
             scs = []
